@@ -5,7 +5,11 @@ package main
 //   srvHandleWaitsBeforeRelease  number of `<x>.Wait()` calls in tcpHandler.Handle (0 as found: the pool
 //                                is released as soon as the accept loop ends; ≥ 1 with the repair)
 //   srvHandleReleases            number of `<x>.Release()` calls in tcpHandler.Handle
-//   srvCloseIdlesCloses          number of `conn.conn.Close()` calls in tcpHandler.CloseIdles
+//   srvCloseIdlesCloses          number of `conn.conn.Close()` calls in tcpHandler.CloseIdles (1 as found: it
+//                                closes idle connections itself; 0 with the repair: only the receive loop's
+//                                deferred function closes a connection)
+//   srvCloseIdlesWakes           number of `conn.conn.SetReadDeadline(…)` calls in tcpHandler.CloseIdles (the
+//                                repair wakes the receive loop instead of closing)
 //   srvRecvDrainChecks           comparisons `atomic.LoadInt32(&connSt.numInvoke) == 0` in recv (the
 //                                deferred drain-then-close)
 
@@ -89,6 +93,8 @@ func init() {
 		add("srvHandleReleases", v, ok)
 		v, ok = h.countCalls("tcpHandler.CloseIdles", func(c string) bool { return c == "conn.conn.Close" })
 		add("srvCloseIdlesCloses", v, ok)
+		v, ok = h.countCalls("tcpHandler.CloseIdles", func(c string) bool { return c == "conn.conn.SetReadDeadline" })
+		add("srvCloseIdlesWakes", v, ok)
 		// the deferred drain in recv: `atomic.LoadInt32(&connSt.numInvoke) == 0`
 		if fd := h.funcDecl("tcpHandler.recv"); fd != nil {
 			var n int64
